@@ -136,6 +136,15 @@ def judge_intersect(ctx, case, g, cat, cg, fine, coarse, cells, filled_cells,
             ctx.check("intersect.runs", ninside == 0, "intersect|raises", case,
                       lambda: {"exc": repr(e), "cells_inside": ninside})
             return
+    if case.get("call", 0) == 0:
+        def _isect():
+            with warnings.catch_warnings():
+                warnings.simplefilter("ignore")
+                ag, ic, w_ = cat.intersect(cg, filled=use_filled)
+            return np.asarray(ag.data), np.asarray(ic), np.asarray(w_)
+        ctx.reuse("intersect", _isect, [],
+                  (np.array(area_grid.data, copy=True), np.array(idxcells, copy=True),
+                   np.array(weights, copy=True)), case)
     idxcells = [int(v) for v in idxcells]
     weights = np.asarray(weights, dtype=float)
     ratio2 = (Fraction(fine["csz"]) / Fraction(coarse["csz"])) ** 2
